@@ -17,6 +17,7 @@ the output loop kept only the status of its last `__archive_write_filter` call
 witness is corpus/C09/cw.b64-fail-once.ops).
 -/
 import LA.Lemmas.WriteCore
+import LA.Gen.WriteCalls
 namespace LA.C09
 open LA.CW LA.WC LA.Ustar
 
@@ -84,5 +85,21 @@ def lastStatus : List Int → Int
 
 /-- Why the repair was needed: a failure followed by a success reads as success. -/
 theorem unrepaired_loop_loses_failure : lastStatus [-30, 0] = 0 := rfl
+
+/-! ### call-site inventory -/
+
+/-- Recorded baseline: the call sites of `__archive_write_output`, `__archive_write_nulls`,
+`__archive_write_filter` in `archive_write_set_format_*.c` and `archive_write_add_filter_*.c`
+whose return value is discarded.  Empty since the `fix:` commits for the ar global
+header and the two warc record headers (the unrepaired tree had exactly those three). -/
+def baselineDiscarded : List (String × String × String × Nat) := []
+
+/-- **C09, no format writer or write filter drops the status of an output call.**
+`LA.Gen.WriteCalls.discarded` is regenerated from the source on every check, so a
+new statement-expression call `__archive_write_output(...);` breaks this theorem. -/
+theorem no_unchecked_output_calls : LA.Gen.WriteCalls.discarded = baselineDiscarded := by decide
+
+/-- The inventory is not empty-handed: it looked at more than a hundred call sites. -/
+example : LA.Gen.WriteCalls.callSites ≥ 100 := by decide
 
 end LA.C09
